@@ -44,6 +44,12 @@ func c17(e *Env) {
 	}
 	cfg.Heartbeat = 5 * time.Second
 	cfg.IdleTimeout = 12 * time.Second
+	if c.Choose("c17timing", 3) == 2 {
+		// another ratio of the three intervals: heartbeats give up early and the idle time-out is
+		// long, so several heartbeats of one connection can be unanswered at the same time
+		cfg.ConnectTimeout = 2 * time.Second
+		cfg.IdleTimeout = 30 * time.Second
+	}
 	cfg.ReconnBase = 100 * time.Millisecond
 	cfg.ReconnMax = 2 * time.Second
 	if c.Choose("tls-listener", 8) == 7 {
@@ -395,6 +401,28 @@ func c17(e *Env) {
 			}
 		}
 		if !checkCanary(false) {
+			return
+		}
+	}
+	// some runs: one of the other nodes goes quiet - it keeps its connections open and answers
+	// nothing, heartbeats included, for several heartbeat rounds - and then answers everything it
+	// has read in one burst, or stays quiet until the proxy gives its connections up as idle
+	if c.Choose("quiet-node?", 3) == 2 {
+		q := w.Nodes[1+c.Choose("quiet-node", len(w.Nodes)-1)]
+		q.Stalled = true
+		w.Logf("node %s: goes quiet", q)
+		e.Res.Stats["probe.c17.backend_quiet_for_several_heartbeat_rounds"]++
+		for i := 0; i < 3; i++ {
+			sendCanary()
+		}
+		quietFor := []time.Duration{8 * time.Second, 14 * time.Second, 21 * time.Second, 45 * time.Second}[c.Choose("quiet-for", 4)]
+		w.RunUntil(func() bool { return false }, quietFor)
+		if w.Stopped() {
+			return
+		}
+		q.Unstall()
+		w.RunUntil(func() bool { return false }, 5*time.Second)
+		if w.Stopped() || !checkCanary(false) {
 			return
 		}
 	}
